@@ -220,6 +220,47 @@ def gen_c11(rng, thorough):
     return sc
 
 
+# ------------------------------------------------------------------ a consumer parked on the output across cancel
+KEEP_LIMIT = 100
+
+
+def has_keeper(script):
+    return any(m.startswith("k") for m in script.split("|", 1)[1].split()) if "|" in script else False
+
+
+def gen_keeper(rng, thorough):
+    sc = []
+    for cap in (0, 1, 2, 3):
+        for fn in (1, 2, 3):
+            for rep in range(4 if thorough else 1):
+                pre = ["r0"] * rng.randrange(0, 4)
+                # work=1: the step function takes a (virtual) millisecond, so the consumer is already parked when it returns
+                sc.append(unfold_cfg(cap, fn, rng.choice([1, 5, 17]), "pure", (), "keep") + " work=%d | " % rng.choice([0, 1, 1]) + " ".join(pre + ["k0_%d" % KEEP_LIMIT, "z"]))
+        for freq in (7, 1000):
+            pre = ["t%d" % freq, "r0"] * rng.randrange(0, 3)
+            sc.append(emit_cfg(cap, freq, "pure", (), "keep") + " | " + " ".join(pre + ["k0_%d" % KEEP_LIMIT, "z"]))
+    return sc
+
+
+def evaluate_keeper(script, tr):
+    """k<out>_<limit> -> n<total>_<after cancel>_<closed seen>: after cancel the source must stop and close although the
+    consumer keeps receiving. On the unchanged code each hand-over after cancel is a fair choice between the send and
+    ctx.Done(): more than 64 further values have probability 2^-64."""
+    c = cfg_of(tr)
+    vs = []
+    for mv, res, _ in tr.steps:
+        if mv[0] == "k" and res.startswith("n"):
+            total, after, closed = res[1:].split("_")
+            if int(after) > DRAIN_AFTER_CANCEL:
+                vs.append(vlib.Violation("impl", "%s: %s values delivered after cancel to a consumer that is parked on the channel and keeps receiving (close seen: %s): "
+                                         "the source does not stop and close after cancel" % (c["stage"], after, closed), case=script, expected="stops after a few values and closes",
+                                         got=res, key={"stage": c["stage"], "mode": c["mode"], "class": "keeps-producing-after-cancel"}))
+        elif mv[0] == "z" and res not in ("0",):
+            vs.append(vlib.Violation("impl", "%s: %s library goroutine(s) alive after cancel and a consumer that drained to the close" % (c["stage"], res), case=script,
+                                     key={"stage": c["stage"], "mode": c["mode"], "class": "leak-after-cancel"}))
+    return vs
+
+
 # ------------------------------------------------------------------ direct oracle
 def call_log(res):
     xs = [int(x) for x in res.strip("()").split(",") if x]
@@ -465,5 +506,16 @@ def run(ctx):
         scripts = [json.load(open(ctx.replay))["case"]]
     else:
         scripts = gen_c11(ctx.rng, ctx.thorough())
+    keep = [s for s in scripts if has_keeper(s)]
+    scripts = [s for s in scripts if not has_keeper(s)]
     trs = ls.judge(ctx, scripts, evaluate, sub="timed", record=False)
     record(ctx, scripts, trs)
+    if keep or not ctx.replay:
+        # a consumer PARKED on the output while the context is cancelled (move k<out>_<limit>): the oracle's network has no
+        # such move; judged by the direct oracle alone
+        if not ctx.replay:
+            keep = gen_keeper(ctx.rng, ctx.thorough())
+        ktr = ls.judge_direct(ctx, keep, evaluate_keeper, "consumer parked on the output across cancel")
+        for s, tr in zip(keep, ktr):
+            if tr is not None:
+                ctx.count(s, nontrivial=True)
